@@ -227,6 +227,14 @@ func g4Sites(r *Repo, rep *Report) {
 		}
 	}
 	for _, want := range []string{"derive.newFileInfos", "derive.(*finder).Visit"} {
+		// (a visitor written as a function literal is looked up through its own body)
+		if wfi := r.lookup(want); wfi != nil && uses[want] == 0 {
+			for id, o := range info.Uses {
+				if o == derivedConst && wfi.Decl.Body.Pos() <= id.Pos() && id.Pos() < wfi.Decl.Body.End() {
+					uses[want]++
+				}
+			}
+		}
 		if uses[want] == 0 {
 			rep.fail(Finding{Rule: "G4", Key: "G4|derivedFilename-agreement|" + want,
 				Msg: fmt.Sprintf("%s no longer compares against the constant %s that (*pkg).Filename writes to: writer and reader of the derived file name disagree", want, derivedConst.Name())})
@@ -1018,7 +1026,7 @@ func g10Discovery(r *Repo, rep *Report) {
 		}
 		for _, l := range as.Lhs {
 			if ix, ok := l.(*ast.IndexExpr); ok {
-				if sel, ok := ix.X.(*ast.SelectorExpr); ok && sel.Sel.Name == "funcNames" {
+				if isFuncNames(ix.X) {
 					return true
 				}
 			}
@@ -1039,8 +1047,11 @@ func g10Discovery(r *Repo, rep *Report) {
 			if !ok || exprStr(c.Fun) != "append" || len(c.Args) != 2 {
 				return false
 			}
-			_, isSel := as.Lhs[0].(*ast.SelectorExpr)
-			return isSel && exprStr(c.Args[0]) == exprStr(as.Lhs[0])
+			switch as.Lhs[0].(type) {
+			case *ast.SelectorExpr, *ast.Ident:
+				return exprStr(c.Args[0]) == exprStr(as.Lhs[0])
+			}
+			return false
 		}
 		queued := false
 		vg := newGraph(visit.Decl.Body, mayReturnFn(info))
@@ -1086,7 +1097,7 @@ func g10Discovery(r *Repo, rep *Report) {
 		g := newGraph(nfi.Decl.Body, mayReturnFn(info))
 		ok := true
 		n := 0
-		ast.Inspect(nfi.Decl.Body, func(x ast.Node) bool {
+		inspectOwn(nfi.Decl.Body, func(x ast.Node) bool {
 			c, isCall := x.(*ast.CallExpr)
 			if !isCall {
 				return true
@@ -1248,6 +1259,18 @@ func g10DeleteRemoves(r *Repo, rep *Report) {
 	if !bad {
 		rep.pass("G10")
 	}
+}
+
+// isFuncNames: the set of called names a file contributes to the reserved set — the finder's field, or a local of the
+// function that finds the calls, of that name.
+func isFuncNames(e ast.Expr) bool {
+	switch x := ast.Unparen(e).(type) {
+	case *ast.SelectorExpr:
+		return x.Sel.Name == "funcNames"
+	case *ast.Ident:
+		return x.Name == "funcNames"
+	}
+	return false
 }
 
 // isErrNotExist: errors.Is(err, fs.ErrNotExist) / errors.Is(err, os.ErrNotExist) — what os.IsNotExist tests, and more
